@@ -835,7 +835,7 @@ def run_search(repo, rep, name, dwc):
   g = view.g
   result = {}
   if not view.pushed:
-    rep.violation('R2/must-pass', f.qualname, 'no results.push', '%s never pushes a design' % name, f.loc())
+    rep.absent(f, 'R2/must-pass', f.qualname, 'no results.push', '%s never pushes a design' % name, f.loc())
     return result
   tests = tests_of(repo, f)
   for pi, P_ in enumerate(view.pushed):
